@@ -336,9 +336,9 @@ Section WithEnc.
   Lemma at_step_entry : at_step j = rho0.
   Proof. unfold at_step. rewrite N.sub_diag, Htrace. destruct frees; reflexivity. Qed.
 
-  Lemma tau_satisfies v : satisfies tau (script v en j n).
+  Lemma tau_satisfies_sc (sc : list cmd) : (forall c, In c sc -> cmd_origin c) -> satisfies tau sc.
   Proof.
-    intros nm t b Hin. apply script_origin in Hin.
+    intros Horig nm t b Hin. apply Horig in Hin.
     destruct Hin as [s k Hs Hk Hc|st k Hst Hk Hc|st e Hst Hj He Hc|st e p Hst Hp Hp1 He Hconst Hc].
     - destruct (is_symbol (sg_expr s)) eqn:Esym; [discriminate|]. inversion Hc; subst.
       eapply same_val_trans; [apply (tau_spec (sg_expr s) k); [assumption|now apply sig_sym_sig]|].
@@ -369,6 +369,25 @@ Section WithEnc.
   Qed.
 
   (** ** the theorem *)
+  Lemma tau_satisfies v : satisfies tau (script v en j n).
+  Proof. apply tau_satisfies_sc. intros c. apply script_origin. Qed.
+
+  (** for any list of commands of the shapes the unrolling emits, in any accepted order *)
+  Theorem script_faithful_sc (sc : list cmd) sigma0 :
+    (forall c, In c sc -> cmd_origin c) ->
+    script_check [] sc = true ->
+    (forall nm t, In (DeclareConst nm t) sc -> agree_on (mk_sym nm t) sigma0 tau) ->
+    forall e k s c,
+      In k steps -> sig_sym en e k = Some s ->
+      In c sc -> mk_sym (cmd_name c) (cmd_ty c) = s ->
+      same_val (script_eval sigma0 sc) s (at_step k) e.
+  Proof.
+    intros Horig Hck Hdecl e k s c Hk Hs Hc Hsym.
+    eapply same_val_trans; [|apply tau_spec; eassumption].
+    apply agree_on_same_val; [apply (sig_sym_type _ _ _ Hs)|].
+    rewrite <- Hsym. apply eval_script_sound_cmd; try assumption. now apply tau_satisfies_sc.
+  Qed.
+
   Theorem script_faithful_gen v sigma0 :
     script_check [] (script v en j n) = true ->
     (forall nm t, In (DeclareConst nm t) (script v en j n) -> agree_on (mk_sym nm t) sigma0 tau) ->
@@ -376,10 +395,5 @@ Section WithEnc.
       In k steps -> sig_sym en e k = Some s ->
       In c (script v en j n) -> mk_sym (cmd_name c) (cmd_ty c) = s ->
       same_val (script_eval sigma0 (script v en j n)) s (at_step k) e.
-  Proof.
-    intros Hck Hdecl e k s c Hk Hs Hc Hsym.
-    eapply same_val_trans; [|apply tau_spec; eassumption].
-    apply agree_on_same_val; [apply (sig_sym_type _ _ _ Hs)|].
-    rewrite <- Hsym. apply eval_script_sound_cmd; try assumption. apply tau_satisfies.
-  Qed.
+  Proof. apply script_faithful_sc. intros c. apply script_origin. Qed.
 End WithEnc.
